@@ -15,7 +15,7 @@ Trace == ndJsonDeserialize("trace.ndjson")
 VARIABLE l
 TraceInit == l = 1
 Allowed(e) == e.ev = "Add" /\ e.outcome \in {"exact", "rejected"} /\ ~e.panic
-TraceNext == l <= Len(Trace) /\ Allowed(Trace[l]) /\ l' = l + 1
+TraceNext == l <= Len(Trace) /\ Allowed(Trace[l]) = TRUE /\ l' = l + 1
 TraceSpec == TraceInit /\ [][TraceNext]_l
 TraceAccepted ==
   LET d == TLCGet("stats").diameter IN
